@@ -50,6 +50,12 @@ func mkPayload(h board.ZobristHash, writer, seq int, r *rand.Rand) ttPayload {
 	p.bound = search.Bound(x & 1)
 	p.depth = int(r.Intn(12))
 	p.ply = int(r.Intn(16))
+	if r.Intn(8) == 0 {
+		// the whole width of the entry's depth and ply fields (an unlimited analysis of a trivial position
+		// runs through tens of thousands of iterations within a second)
+		p.depth = []int{255, 256, 257, 300, 1000, 32767, 32768, 40000, 65535}[r.Intn(9)]
+		p.ply = []int{0, 1, 255, 256, 1000, 65535}[r.Intn(6)]
+	}
 	p.move = board.Move{From: board.Square((x >> 8) & 63), To: board.Square((x >> 16) & 63), Promotion: board.Piece((x >> 24) % 6)}
 	if narrowPayloads.Load() {
 		y := uint64(h) * 0x9E3779B97F4A7C15
@@ -69,7 +75,7 @@ func tagSum(writer, seq int) int8 {
 	return int8((writer*31 + seq*7 + 1) & 0x7f)
 }
 
-func (p ttPayload) val() int { return p.ply + p.depth<<1 }
+func (p ttPayload) val() int { return p.ply + p.depth<<1 } // (no wrap: deeper and later is worth more)
 
 func tagOf(s eval.Score) (int, int) {
 	v := int(float32(s.Pawns))
@@ -565,7 +571,7 @@ func init() {
 		RaceKinds:   map[string]bool{"lin": true, "stress": true, "fill": true, "search": true},
 		Technique:   "race detector + offline linearizability checking (porcupine) of recorded Read/Write histories against a sequential slot model, tagged payloads for tuple integrity, quiescent-point checks of the fill counter, hook-point perturbation of the CAS loop",
 		Rule:        "enginefill: 3-5 games in a row on one engine (four recipes, hash 1-4 MB): the fill reported with every iteration is in [0,1] and equals, depth by depth, what a freshly started engine reports for the same analysis; histories: tables of 1-8 slots, 2-6 clients x 30-90 operations (55% Write / 45% Read) over 1-4 hashes per slot, call/return stamped from one atomic counter, checked per slot with porcupine (timeout => inconclusive); stress: 4-16 clients x 500-3500 operations with tuple-integrity, final-replacement-value and fill-count checks; fill: every slot of 2^10..2^14-slot tables written by 8-16 clients, Used() must be exactly 1; search: 2-5 concurrent alpha-beta searches sharing a table must return the table-less value; the same histories run in the plain build (faster, more interleavings) and the -race build; yields/sleeps injected at tt.read / tt.write.loaded / tt.write.swapped; distinct = distinct histories by (event count, accepted stores, hits)",
-		Assumptions: []string{"sequential model: a slot holds nothing or (hash, payload, value); Write stores iff value(new) >= value(current) and reports it; Read(h) returns the payload iff the slot's hash is h", "porcupine v1.3.0"},
+		Assumptions: []string{"sequential model: a slot holds nothing or (hash, payload, value); Write stores iff value(new) >= value(current) and reports it; Read(h) returns the payload iff the slot's hash is h", "porcupine v1.3.0", "depth and ply within the entry's 16-bit fields (0..65535)"},
 		Timeout:     minutes(15, 120),
 		Cases: func(tier string, seed int64) []fw.Case {
 			l := mkCases(nil, "lin", 16, seed, pick(tier, 25, 5000))
